@@ -1,0 +1,102 @@
+//go:build verif
+
+// C03: a pending break / continue never leaks out of a `for` statement, and evaluating an
+// expression never sets or clears one (comment-only; read by /verif/plvc).
+
+package runtime
+
+//@ spec flagsSame(ctx *Task) bool = ctx.loopBreak == old(ctx.loopBreak) && ctx.loopContinue == old(ctx.loopContinue)
+
+// builtins do not touch the loop flags
+//@ functype FuncCall
+//@ ensures[C03] flagsSame(ctx)
+
+// expressions (everything but if / for / for-in / break / continue) leave the flags alone
+//@ func RunStmt
+//@ ownensures[C03] !ast.isStmtKind(node) ==> flagsSame(ctx)
+// break and continue are never pending together
+//@ ensures[C03] !old(ctx.loopBreak) && !old(ctx.loopContinue) ==> !(ctx.loopBreak && ctx.loopContinue)
+
+//@ func RunStmts
+//@ ensures[C03] !old(ctx.loopBreak) && !old(ctx.loopContinue) ==> !(ctx.loopBreak && ctx.loopContinue)
+//@ loop 1
+//@ invariant[C03] !old(ctx.loopBreak) && !old(ctx.loopContinue) ==> !ctx.loopBreak && !ctx.loopContinue
+
+//@ func RunBreakStmt
+//@ ensures[C03] ctx.loopContinue == old(ctx.loopContinue)
+//@ func RunContinueStmt
+//@ ensures[C03] ctx.loopBreak == old(ctx.loopBreak)
+
+//@ func RunUnaryExpr
+//@ ensures[C03] flagsSame(ctx)
+//@ func RunListInitExpr
+//@ ensures[C03] flagsSame(ctx)
+//@ loop 1
+//@ invariant[C03] flagsSame(ctx)
+//@ func RunMapInitExpr
+//@ ensures[C03] flagsSame(ctx)
+//@ loop 1
+//@ invariant[C03] flagsSame(ctx)
+//@ func RunIndexExprGet
+//@ ensures[C03] flagsSame(ctx)
+//@ func searchListAndMap
+//@ ensures[C03] flagsSame(ctx)
+//@ loop 1
+//@ invariant[C03] flagsSame(ctx)
+//@ func RunParenExpr
+//@ ensures[C03] flagsSame(ctx)
+//@ func RunInExpr
+//@ ensures[C03] flagsSame(ctx)
+//@ func RunConditionExpr
+//@ ensures[C03] flagsSame(ctx)
+//@ func RunArithmeticExpr
+//@ ensures[C03] flagsSame(ctx)
+//@ func RunAssignmentExpr
+//@ ensures[C03] flagsSame(ctx)
+//@ func changeListOrMapValue
+//@ ensures[C03] flagsSame(ctx)
+//@ loop 1
+//@ invariant[C03] flagsSame(ctx)
+//@ func RunCallExpr
+//@ ensures[C03] flagsSame(ctx)
+//@ func RunSliceExpr
+//@ ensures[C03] flagsSame(ctx)
+
+// a `for` statement that starts without a pending break / continue ends without one: what its
+// body leaves pending is consumed by the loop itself
+//@ func RunForStmt
+//@ ensures[C03] result2 == nil && !old(ctx.loopBreak) && !old(ctx.loopContinue) ==> !ctx.loopBreak && !ctx.loopContinue
+//@ loop 1
+//@ invariant[C03] !old(ctx.loopBreak) && !old(ctx.loopContinue) ==> !ctx.loopBreak && !ctx.loopContinue
+
+//@ func RunIfElseStmt
+//@ loop 1
+//@ invariant[C03] !old(ctx.loopBreak) && !old(ctx.loopContinue) ==> !ctx.loopBreak && !ctx.loopContinue
+
+//@ func RunForInStmt
+//@ loop 1
+//@ invariant[C03] !old(ctx.loopBreak) && !old(ctx.loopContinue) ==> !ctx.loopBreak && !ctx.loopContinue
+//@ loop 2
+//@ invariant[C03] !old(ctx.loopBreak) && !old(ctx.loopContinue) ==> !ctx.loopBreak && !ctx.loopContinue
+//@ loop 3
+//@ invariant[C03] !old(ctx.loopBreak) && !old(ctx.loopContinue) ==> !ctx.loopBreak && !ctx.loopContinue
+
+//@ func forbreak
+//@ ensures[C03] !ctx.loopBreak && result == old(ctx.loopBreak) && ctx.loopContinue == old(ctx.loopContinue)
+//@ func forcontinue
+//@ ensures[C03] !ctx.loopContinue && ctx.loopBreak == old(ctx.loopBreak)
+
+// scoping of the three-clause for: the header clauses run in the statement's own scope (a child
+// of the enclosing scope); every execution of the body runs in a scope of its own, one level
+// deeper, with no variable in it
+//@ func RunStmt
+//@ observe scope *Stack = ctx.stackCur
+//@ func RunStmts
+//@ observe scope *Stack = ctx.stackCur
+//@ observe emptyscope bool = ctx.stackCur != nil && (forall n string :: !dom(ctx.stackCur.Data, n))
+//@ func RunForStmt
+//@ ensures[C03] forall k mathint :: 0 <= k && k < ncalls(RunStmt) ==> callobs(RunStmt, k, scope) != nil && callobs(RunStmt, k, scope).Before == old(ctx.stackCur)
+//@ ensures[C03] forall k mathint :: 0 <= k && k < ncalls(RunStmts) ==> callobs(RunStmts, k, emptyscope) && callobs(RunStmts, k, scope) != nil && callobs(RunStmts, k, scope).Before != nil && callobs(RunStmts, k, scope).Before.Before == old(ctx.stackCur)
+//@ loop 1
+//@ invariant[C03] forall k mathint :: 0 <= k && k < ncalls(RunStmt) ==> callobs(RunStmt, k, scope) != nil && callobs(RunStmt, k, scope).Before == old(ctx.stackCur)
+//@ invariant[C03] forall k mathint :: 0 <= k && k < ncalls(RunStmts) ==> callobs(RunStmts, k, emptyscope) && callobs(RunStmts, k, scope) != nil && callobs(RunStmts, k, scope).Before != nil && callobs(RunStmts, k, scope).Before.Before == old(ctx.stackCur)
